@@ -23,6 +23,7 @@ type obsEvent struct {
 	invOK bool
 	rule  canvas.FillRule
 	st    oracle.StrokeStyle
+	layer int    // index of the recorded layer the paint belongs to
 	note  string // why the event cannot be evaluated ("" if it can)
 	path  string
 }
@@ -45,7 +46,7 @@ func observe(c *canvas.Canvas) ([]obsEvent, string) {
 	r := rec.New(c.W, c.H)
 	c.RenderTo(r)
 	var out []obsEvent
-	for _, ev := range r.Events {
+	for li, ev := range r.Events {
 		if ev.Kind != "path" {
 			return out, "unexpected-" + ev.Kind + "-layer"
 		}
@@ -54,7 +55,7 @@ func observe(c *canvas.Canvas) ([]obsEvent, string) {
 			return out, "path-undecodable"
 		}
 		inv, ok := invert(ev.M)
-		base := obsEvent{cs: cs, inv: inv, invOK: ok, rule: ev.Style.FillRule, path: ev.Path.String()}
+		base := obsEvent{cs: cs, inv: inv, invOK: ok, rule: ev.Style.FillRule, path: ev.Path.String(), layer: li}
 		if ev.Style.HasFill() {
 			e := base
 			e.kind = "fill"
@@ -281,6 +282,11 @@ func comparePair(sc *Scenario, e *Event, o *obsEvent, w, h float64, prefix strin
 	if bad == 0 {
 		return
 	}
+	if e.loose && len(hazKinds(e.Haz, colProp)) > 0 {
+		// the number of paints differs and the document has order-sensitive sources for this paint: the pairing is uncertain
+		return append(ms, core.Mismatch{Signature: precedenceSig(prefix, colProp, e.Haz, true),
+			Detail: fmt.Sprintf("%s: region differs from the paired observed paint (path %s); the number of paints differs from the %d expected, so the pairing is uncertain (order-sensitive sources: %v)", where, o.path, len(sc.Events), hazKinds(e.Haz, colProp))})
+	}
 	p := samplePt(e, first, w, h)
 	detail := fmt.Sprintf("%s: %d of %d decided samples differ (%d expected-in not painted, %d expected-out painted); first: sample %d at canvas (%.4f,%.4f) of %gx%g expected %d; observed path %s",
 		where, bad, len(e.Cells), inMiss, outHit, first, p.X, p.Y, w, h, e.Cells[first], o.path)
@@ -346,14 +352,30 @@ func compare(sc *Scenario, c *canvas.Canvas, prefix string) (ms []core.Mismatch)
 	if note != "" {
 		return append(ms, core.Mismatch{Signature: prefix + note, Detail: note})
 	}
-	// alignment: the order-preserving pairing of expected and observed paints with the highest score, where a pair scores
-	// 8 if the regions agree on every decided sample and the expected paint has painted samples, 2 if they agree but the
-	// expectation decides no painted sample, 1 if only the kinds agree; +3 for equal colours. Pairs are then compared;
-	// what stays unpaired is a missing / an extra paint.
+	// alignment. A shape element paints at most a fill and a stroke, and the canvas records them in one layer; so the paints are
+	// grouped (expected: by element, observed: by layer) and the groups are paired order-preservingly with the highest score,
+	// where a pair of groups scores 1, plus for every kind of paint present on both sides 8 if the regions agree on every decided
+	// sample and the expectation has painted samples (2 if it decides none), plus 3 for equal colours. Paired groups are compared
+	// paint by paint; what stays unpaired is a missing / an extra paint.
 	exp := sc.Events
-	n, m := len(exp), len(obs)
-	if n != m && sc.Mode != "rt" && len(sc.Haz) > 0 {
-		// the number of paints differs: which observed paint belongs to which element is then uncertain, so the
+	var eg, og [][]int
+	for i := range exp {
+		if i > 0 && exp[i].El == exp[i-1].El {
+			eg[len(eg)-1] = append(eg[len(eg)-1], i)
+		} else {
+			eg = append(eg, []int{i})
+		}
+	}
+	for j := range obs {
+		if j > 0 && obs[j].layer == obs[j-1].layer {
+			og[len(og)-1] = append(og[len(og)-1], j)
+		} else {
+			og = append(og, []int{j})
+		}
+	}
+	n, m := len(eg), len(og)
+	if n != m && len(sc.Haz) > 0 {
+		// the number of painting elements differs: which layer belongs to which element is then uncertain, so the
 		// order-sensitivity features of the whole document apply to every paint
 		exp = append([]Event(nil), exp...)
 		for i := range exp {
@@ -361,27 +383,44 @@ func compare(sc *Scenario, c *canvas.Canvas, prefix string) (ms []core.Mismatch)
 			exp[i].loose = true
 		}
 	}
-	checkKind := sc.Mode != "rt"
-	score := make([][]int, n)
-	for i := range exp {
-		score[i] = make([]int, m)
-		for j := range obs {
-			if checkKind && obs[j].kind != exp[i].Kind {
-				continue
-			}
-			sc0 := 1
-			if obs[j].note == "" && obs[j].invOK {
-				if bad, _, _, _ := cellDiff(&exp[i], &obs[j], c.W, c.H); bad == 0 {
-					sc0 = 8
-					if exp[i].Opt {
-						sc0 = 2
-					}
+	pairScore := func(i, j int) int {
+		sc0 := 0
+		if obs[j].note == "" && obs[j].invOK {
+			if bad, _, _, _ := cellDiff(&exp[i], &obs[j], c.W, c.H); bad == 0 {
+				sc0 = 8
+				if exp[i].Opt {
+					sc0 = 2
 				}
 			}
-			if obs[j].rgba == exp[i].RGBA {
-				sc0 += 3
+		}
+		if obs[j].rgba == exp[i].RGBA {
+			sc0 += 3
+		}
+		return sc0
+	}
+	// same: indices of the paints of two groups that correspond (same kind; round trip with a single paint each: any kind)
+	same := func(a, b []int) (pairs [][2]int) {
+		if sc.Mode == "rt" && len(a) == 1 && len(b) == 1 {
+			return [][2]int{{a[0], b[0]}}
+		}
+		for _, i := range a {
+			for _, j := range b {
+				if exp[i].Kind == obs[j].kind {
+					pairs = append(pairs, [2]int{i, j})
+				}
 			}
-			score[i][j] = sc0
+		}
+		return
+	}
+	score := make([][]int, n)
+	for a := range eg {
+		score[a] = make([]int, m)
+		for b := range og {
+			v := 1
+			for _, p := range same(eg[a], og[b]) {
+				v += pairScore(p[0], p[1])
+			}
+			score[a][b] = v
 		}
 	}
 	best := make([][]int, n+1)
@@ -390,36 +429,63 @@ func compare(sc *Scenario, c *canvas.Canvas, prefix string) (ms []core.Mismatch)
 	}
 	for i := n - 1; i >= 0; i-- {
 		for j := m - 1; j >= 0; j-- {
-			best[i][j] = max(best[i+1][j], best[i][j+1])
-			if score[i][j] > 0 {
-				best[i][j] = max(best[i][j], best[i+1][j+1]+score[i][j])
-			}
+			best[i][j] = max(best[i+1][j], best[i][j+1], best[i+1][j+1]+score[i][j])
 		}
+	}
+	missing := func(i int) {
+		e := &exp[i]
+		if e.Opt { // a paint without decided painted samples may be absent
+			return
+		}
+		prop := "fill"
+		if e.Kind == "stroke" {
+			prop = "stroke"
+		}
+		ms = append(ms, core.Mismatch{Signature: missingSig(precedenceSig(prefix, prop, e.Haz, true)),
+			Detail: fmt.Sprintf("expected paint missing: el=%d %s %s %v (order-sensitive sources: %v)", e.El, e.Kind, e.Col, e.RGBA, hazKinds(e.Haz, prop))})
+	}
+	extra := func(j int, haz []string) {
+		o := &obs[j]
+		sig := prefix + o.kind + "-extra"
+		if hk := hazKinds(haz, o.kind); len(hk) == 1 {
+			sig = prefix + "style-precedence+" + hk[0]
+		} else if len(hk) > 1 {
+			sig = prefix + "style-precedence+multiple"
+		}
+		ms = append(ms, core.Mismatch{Signature: sig, Detail: fmt.Sprintf("unexpected paint: %s %v of path %s (order-sensitive sources for %s: %v)", o.kind, o.rgba, o.path, o.kind, hazKinds(haz, o.kind))})
 	}
 	i, j := 0, 0
 	for i < n || j < m {
-		if i < n && j < m && score[i][j] > 0 && best[i][j] == best[i+1][j+1]+score[i][j] {
-			ms = append(ms, comparePair(sc, &exp[i], &obs[j], c.W, c.H, prefix)...)
+		if i < n && j < m && best[i][j] == best[i+1][j+1]+score[i][j] {
+			ps := same(eg[i], og[j])
+			usedE, usedO := map[int]bool{}, map[int]bool{}
+			for _, p := range ps {
+				usedE[p[0]], usedO[p[1]] = true, true
+				ms = append(ms, comparePair(sc, &exp[p[0]], &obs[p[1]], c.W, c.H, prefix)...)
+			}
+			var elHaz []string
+			for _, x := range eg[i] {
+				elHaz = append(elHaz, exp[x].Haz...)
+				if !usedE[x] {
+					missing(x)
+				}
+			}
+			for _, y := range og[j] {
+				if !usedO[y] {
+					// an unexpected paint of this element: the features of the element's other paint do not cover this property,
+					// so the document's features decide (they include this element's)
+					extra(y, append(elHaz, sc.Haz...))
+				}
+			}
 			i, j = i+1, j+1
 		} else if j < m && (i == n || best[i][j] == best[i][j+1]) {
-			o := &obs[j]
-			sig := prefix + "event-extra"
-			if hk := hazKinds(sc.Haz, o.kind); len(hk) == 1 {
-				sig = prefix + "style-precedence+" + hk[0]
-			} else if len(hk) > 1 {
-				sig = prefix + "style-precedence+multiple"
+			for _, y := range og[j] {
+				extra(y, sc.Haz)
 			}
-			ms = append(ms, core.Mismatch{Signature: sig, Detail: fmt.Sprintf("unexpected paint: %s %v of path %s (document has order-sensitive sources for %s: %v)", o.kind, o.rgba, o.path, o.kind, hazKinds(sc.Haz, o.kind))})
 			j++
 		} else {
-			e := &exp[i]
-			if !e.Opt { // a paint without decided painted samples may be absent
-				prop := "fill"
-				if e.Kind == "stroke" {
-					prop = "stroke"
-				}
-				ms = append(ms, core.Mismatch{Signature: missingSig(precedenceSig(prefix, prop, e.Haz, e.loose || inInts4(e.CD.Col, [4]int{0, 0, 0, 0}))),
-					Detail: fmt.Sprintf("expected paint missing: el=%d %s %s %v (order-sensitive sources: %v)", e.El, e.Kind, e.Col, e.RGBA, hazKinds(e.Haz, prop))})
+			for _, x := range eg[i] {
+				missing(x)
 			}
 			i++
 		}
